@@ -6,7 +6,7 @@ HERE = os.path.dirname(os.path.abspath(__file__))
 CHECKS = {
  'C01': ('syntax-directed composition of all quote! templates (top-down parse with hole markers), optional-hole guard analysis, core-API arity table, binder/use scope analysis, impl-header provenance, member provenance of every self.#m access (declared field list), loop-scope analysis of accumulators',
          'Decides, for every path of the generator (hence every input), that the emitted token trees are well-formed items: each template parses in the category of the position it lands in, no possibly-None hole changes arity, every derived identifier used as a variable is bound under implied guards, every impl header reproduces the type\'s generics. It does not run rustc on generated programs: type/borrow errors that depend on user types are out of reach.', '§6 C01'),
- 'C04': ('lint over the generated-code model of the Ord/PartialOrd enum handlers: no unsafe/pointer/cast (layout-blind), discriminant match table provenance, counter idiom of the discriminant provider, dominance of field comparison by discriminant equality',
+ 'C04': ('lint over the generated-code model of the Ord/PartialOrd enum handlers: no unsafe/pointer/cast (layout-blind), discriminant match table provenance, counter idiom of the discriminant provider (refuses above i128::MAX; the result is the vector pushed to), i128-suffixed arm literals, dominance of field comparison by discriminant equality',
          'Shape of the cross-variant comparison for all enums: safe code only, compared integers come from a match with one arm per variant carrying that variant\'s declared discriminant (explicit literal, else previous+1 from 0), fields compared only under discriminant equality.', '§6 C04'),
  'C12': ('impl-header provenance dataflow (split_for_impl / make_where_clause / Bound result only) over all impl templates; arm tables of Bound::from_meta, WherePredicatesOrBool and the predicate builders',
          'All impl headers (39 templates incl. companions, per-target Into, nested Debug wrapper) carry exactly the type\'s generics plus predicates computed by Bound; the value→mode and mode→predicates tables equal the documented ones; `*` iterates type parameters only.', '§6 C12'),
@@ -14,12 +14,12 @@ CHECKS = {
          'No iteration over a hash container can influence output or error choice (the one iteration left feeds a vector that is only queried with contains(), followed through every callee); no time/env/fs/thread/random API; no mutable global state.', '§6 C16'),
  'C17': ('census of every panic-capable construct in educe\'s source with per-site discharge rules (typestate of validated Meta paths and identifier sets over the call graph, dominance via context chains, template re-parse, bounded insert_str, arithmetic idioms); loop/recursion termination rules; cross-checked against rustc\'s MIR (rustc_private driver tools/mirfacts: every type-resolved unwrap/expect/Index/panicking call and every Assert terminator, per function and kind, must be covered by a discharged census site; every MIR loop header by an examined loop)',
          'Every unwrap/expect, panicking macro (incl. debug_assert!), index, panicking std method, unchecked arithmetic and format_ident! in the crate is proven unreachable-as-a-panic by a named rule whose premises are re-derived from the current tree; loops are finite for-loops or a recognised fresh-name search; recursion is structurally decreasing.', '§6 C17'),
- 'C19': ('name-resolution lint over the generated-code model: absolute-path rule for every path and macro, receiver rule for method-call syntax, fixed-generic clash rule with fresh-name-provider verification, derived-binder injectivity',
+ 'C19': ('name-resolution lint over the generated-code model: absolute-path rule for every path and macro, receiver rule for method-call syntax, fixed-generic clash rule with fresh-name-provider verification, derived-binder injectivity, capture of user paths / const parameters by generated binders (known findings)',
          'For all inputs the generated code refers to nothing by a shadowable name: every path/macro is ::core-absolute, template-local, Self, primitive or a hole; no fixed generic parameter can clash with the type\'s generics; method-call syntax only on template locals.', '§6 C19'),
 }
 
 CHECKS.update({
- 'C13': ('sibling-agreement and typestate rules over the 24 attribute scanners and 24 parameter parsers (SCAN, COUPLE, PARAM), acceptance-switch table at all ≈92 builder sites (FLAGS), unique-selection idiom with abstract interpretation of every search loop (SEL), dominance of rejection exits over emissions (SHAPE, DUP)',
+ 'C13': ('sibling-agreement and typestate rules over the 24 attribute scanners and 24 parameter parsers (SCAN, COUPLE, PARAM), acceptance-switch table at all ≈92 builder sites (FLAGS), unique-selection idiom with abstract interpretation of every search loop (SEL), dominance of rejection exits over emissions (SHAPE, DUP), dispatch of every educed trait to its handler (DISP)',
          'Each obligation of the statement is tied to a structural rule evaluated on every parser/handler: unknown / un-educed / repeated trait, repeated or unknown or misplaced parameter, repeated rank or Into target, missing or duplicate designation, union and unit-variant refusals, nameless Debug. The acceptance table is transcribed from the documentation by documented names only.', '§6 C13'),
  'C14': ('acceptance/conversion tables of the value helpers extracted from their match arms (p = v vs p(v), string vs bare forms), alias or-patterns, shorthand forms, read/write independence of parameter arms, full-visit and keyed-dispatch rules',
          'For every spelling pair of the property the two spellings reach the same conversion and the same assignment, hence identical attribute records and identical output; parameter and trait order are irrelevant because arms touch only their own state and dispatch is keyed.', '§6 C14'),
@@ -36,7 +36,7 @@ CHECKS.update({
          'For all inputs the comparison is lexicographic over non-ignored fields in ascending rank with self first and method iff given; PartialOrd None propagates; Ord and PartialOrd agree when both are educed.', '§6 C03'),
  'C05': ('semantic summary of the generated `hash`: per-field feed statements with guard-exactness and path enumeration, variant-index provenance (enumerate index of the variants loop), uses of `state`',
          'For all inputs the hasher is fed the variant index (enums) and exactly the non-ignored fields once each in declaration order through the method iff given; nothing else.', '§6 C05'),
- 'C06': ('path-wise semantic summary of the generated `fmt`: for every (named_field, name shown, ignored, method) case the emitted statement sequence is compared with the builder-call table; name/key provenance; builder defaults; wrapper shape',
+ 'C06': ('path-wise semantic summary of the generated `fmt`: for every (named_field, name shown, ignored, method) case the emitted statement sequence is compared with the builder-call table; name/key provenance; builder defaults; wrapper shape; sibling agreement of the need-name refusals and the shown-fields flag behind them',
          'For all inputs the Debug impl issues exactly the core::fmt builder calls of the effective shape (struct / tuple / map with raw keys, effective name, keys, values, custom-method wrapper); core::fmt\'s rendering of that call sequence is trusted.', '§6 C06'),
  'C07': ('semantic summary of clone/clone_from: constructor shape per struct shape / variant, one CLONE(<same field>) per field in place, destination/source binder provenance via the patterns matched against self/source, fallback, bitwise-copy guard analysis',
          'For all inputs clone rebuilds the same variant field by field (method iff given), clone_from updates each destination field from the same source field or replaces self on a different variant, and `*self` is used exactly when Copy is educed without custom methods.', '§6 C07'),
